@@ -34,6 +34,7 @@ import itertools
 import os
 
 import common
+import dbside
 import pyside
 import transforms
 from common import enc
@@ -333,7 +334,9 @@ def run_db(env, form, cl, trname, dbfn):
     out = {"form": form}
     try:
         data, kw, gen = env.make(form, cl, rec)
-        db = gffutils.create_db(data, dbfn, force=True, merge_strategy="error", verbose=False, **kw)
+        # verbose only switches progress / debug output on: the same database, the same number of transform calls
+        verbose = dbside.VERBOSE_CYCLE[(cl + len(trname) + len(form)) % len(dbside.VERBOSE_CYCLE)]
+        db = gffutils.create_db(data, dbfn, force=True, merge_strategy="error", verbose=verbose, **kw)
         out["proj"] = projection(db)
         out["pulled"] = gen.pulled if gen is not None else None
         out["ncalls"] = len(rec.calls) if rec is not None else None
@@ -769,6 +772,8 @@ def check_annotation(ctx, res, ann, tag, r, cmds, exp_out, tags, heavy, crlf=Fal
                     ref = o
                     if "error" in o:
                         res.count("db_path_form_raised_" + o["error"])
+                        res.oracle_failures.append(("create_db(path) raised %s on an annotation with features left after the "
+                                                    "transform" % o["error"], inp))
                     else:
                         stored = sorted((x[1:9] + (x[9],)) for x in o["proj"]["features"] if x[2] != "gffutils_derived")
                         wanted = sorted((w[:8] + (sorted((k, v) for k, v in w[8].items()),)) for w in want)
